@@ -12,9 +12,9 @@ EXPLANATION = (
     "same Compressed; a missing digest and a non-compressed receiver are Err exits. C13.3: the already-compressed arm of compress "
     "returns self (idempotent). C13.4: the encrypted and elided arms of compress are Err exits reaching no sink. C13.5: decoded "
     "value wiring. C13.6: compress_subject / uncompress_subject are replace_subject(self, f(subject(self))) (or self when nothing "
-    "to do). Does not decide DEFLATE/CRC behaviour on corrupt data.")
+    "to do). C13.8: uncompress rebuilds by decoding, so the assertion-or-obscured predicate table and the decoder-side C04.1/C04.4 obligations are re-evaluated here. C13.9: the Compress arm of the obscure-action dispatch is compress(self) (fallback self), so the per-case table also holds through elide_*_with_action. Does not decide DEFLATE/CRC behaviour on corrupt data.")
 TRUSTED = ['Compressed::from_uncompressed_data stores its digest argument; digest_ref_opt/digest read it back', 'Compressed::uncompress checks a CRC-32']
-FLOORS = {'C13.1': 1, 'C13.2': 2, 'C13.3': 1, 'C13.4': 2, 'C13.6': 3}
+FLOORS = {'C13.1': 1, 'C13.2': 2, 'C13.3': 1, 'C13.4': 2, 'C13.6': 3, 'C13.8': 12, 'C13.9': 1}
 
 
 def check(ctx):
@@ -179,3 +179,17 @@ def check(ctx):
     # C13.7 error discipline: no error of a fallible call is turned into "absent / false / default" outside the reviewed table
     from .. import errflow
     errflow.check(ctx, 'C13.7', ['src/extension/compress.rs', 'src/base/elide.rs'], 'compression / obscuring family')
+    # C13.8: uncompress / uncompress_subject rebuild their result by decoding, so what compress accepted must be accepted back:
+    # the assertion-or-obscured predicate table (compressed subjects included) and the constructors' image obligations at the
+    # decoder's construction sites - the C05.5 / C05.6 instances re-evaluated here.
+    from . import C04
+    from .C07 import Relabel
+    C04.check_predicates(Relabel(ctx, 'C13.8', ['C04.4/pred']))
+    try:
+        C04.check(Relabel(ctx, 'C13.8', ['C04.1', 'C04.4']))
+    except Exception as e:
+        ctx.fail('C13.8', '-', 'decoder-side obligations (C04.1/C04.4) could not be evaluated: %r' % e, key='C13.8|c04')
+    # C13.9: the Compress action of the elide_*_with_action family is compress(self) itself (fallback: self), so the per-case
+    # table judged above (already compressed -> unchanged) also holds for compression through that API
+    from .. import obscure
+    obscure.check_obscure_region(ctx, 'C13.9', arms=('Compress',))
